@@ -49,6 +49,14 @@ func TestMain(m *testing.M) {
 		_, err := checkSpend(c)
 		return err
 	})
+	reg("multi_check", func(raw json.RawMessage) error {
+		var c multiCase
+		if err := json.Unmarshal(raw, &c); err != nil {
+			return err
+		}
+		_, err := checkMulti(c)
+		return err
+	})
 	reg("taproot_spend", func(raw json.RawMessage) error {
 		var c tapCase
 		if err := json.Unmarshal(raw, &c); err != nil {
